@@ -541,7 +541,7 @@ TBNDS_FROM_FITS = []      # (T, n_seg, recorded limits) of fitted components, fi
 
 
 def tbnds_term(T, n, tc):
-    exp = "None" if tc is None else "(Some %s)" % coq_tc(tc)
+    exp = "(@None (tconstr F))" if tc is None else "(Some %s)" % coq_tc(tc)
     return "(%s, %d, %s)" % (flist(T), int(n), exp)
 
 
